@@ -1,4 +1,104 @@
 import Anything.Model.Cli
+import Mathlib.Tactic.ByContra
+/-!
+# C19 — the command line prints exactly what the library computed
+
+Decision logic of the result loop of `src/bin/any.rs` (`Model/Cli.lean`), stated
+outright for **every** list of library results and every value.
+-/
+
 namespace Anything.Props.C19
-theorem C19_placeholder : True := trivial
+open Anything Anything.Cli
+
+/-- The numeric part of a printed value. -/
+def numPart (exact : Bool) (v : Numeric) : List Char :=
+  if exact then
+    (if v.value.den ≠ 1 then Display.intStr v.value.num ++ ['/'] ++ Display.natStr v.value.den
+     else Display.intStr v.value.num)
+  else Display.fmt { limit := 12, exponentLimit := 12, showContinuation := true } v.value
+
+/-- **C19 (shape of a line).** numeric part, then a space exactly when the unit has a
+numerator part, then the unit — pluralised only if the value is not one. -/
+theorem C19_line_shape (exact : Bool) (v : Numeric) :
+    renderValue exact v =
+      numPart exact v ++ (if Compound.hasNumerator v.unit then [' '] else [])
+        ++ UnitDisplay.compound v.unit (v.value ≠ 1) := rfl
+
+/-- **C19 (exact mode, integers).** No slash and no denominator when the denominator is one. -/
+theorem C19_exact_integer (v : Numeric) (h : v.value.den = 1) :
+    numPart true v = Display.intStr v.value.num := by
+  simp [numPart, h]
+
+/-- **C19 (exact mode, fractions).** Numerator, slash, denominator — of the reduced fraction. -/
+theorem C19_exact_fraction (v : Numeric) (h : v.value.den ≠ 1) :
+    numPart true v = Display.intStr v.value.num ++ ['/'] ++ Display.natStr v.value.den ∧
+      Nat.Coprime v.value.num.natAbs v.value.den := by
+  refine ⟨by simp [numPart, h], v.value.reduced⟩
+
+/-- **C19 (decimal mode).** Twelve digits, exponent threshold twelve, continuation mark on. -/
+theorem C19_decimal (v : Numeric) :
+    numPart false v = Display.fmt { limit := 12, exponentLimit := 12, showContinuation := true } v.value := rfl
+
+/-- **C19 (space before the unit).** Present exactly when some unit has a positive power. -/
+theorem C19_unit_space (exact : Bool) (v : Numeric) :
+    (∃ e ∈ v.unit, e.2.power > 0) ↔
+      renderValue exact v = numPart exact v ++ [' '] ++ UnitDisplay.compound v.unit (v.value ≠ 1) := by
+  rw [C19_line_shape]
+  constructor
+  · intro ⟨e, he, hp⟩
+    have : Compound.hasNumerator v.unit = true := by
+      unfold Compound.hasNumerator
+      rw [List.any_eq_true]
+      exact ⟨e, he, by simpa using hp⟩
+    simp [this]
+  · intro h
+    by_contra hne
+    have : Compound.hasNumerator v.unit = false := by
+      unfold Compound.hasNumerator
+      rw [List.any_eq_false]
+      intro e he
+      have : ¬ e.2.power > 0 := fun hp => hne ⟨e, he, hp⟩
+      simpa using this
+    simp only [this, Bool.false_eq_true, ↓reduceIte, List.append_nil, List.append_assoc] at h
+    have := congrArg List.length h
+    simp at this
+
+/-- **C19 (no plural for one).** When the value is exactly one the unit is printed in
+the singular. -/
+theorem C19_singular_for_one (exact : Bool) (v : Numeric) (h : v.value = 1) :
+    renderValue exact v =
+      numPart exact v ++ (if Compound.hasNumerator v.unit then [' '] else [])
+        ++ UnitDisplay.compound v.unit false := by
+  rw [C19_line_shape]; simp [h]
+
+/-- **C19 (plural applies to a lone numerator unit only).** -/
+theorem C19_plural_scope (c : Compound) (h : (c.filter (fun e => e.2.power ≥ 0)).length ≠ 1) :
+    UnitDisplay.compound c true = UnitDisplay.compound c false := by
+  unfold UnitDisplay.compound
+  have : ((c.filter (fun e => e.2.power ≥ 0)).length == 1) = false := by simpa using h
+  simp [this]
+
+/-- **C19 (one item per result, in order).** -/
+theorem C19_one_per_result (exact : Bool) (rs : List (Except EvalErr Numeric)) :
+    (render exact rs).length = rs.length := by simp [render]
+
+/-- **C19 (errors do not abort).** Whatever precedes and follows an error is rendered
+exactly as it would be without it; the error itself becomes one diagnostic with the
+library's kind and source range. -/
+theorem C19_errors_do_not_abort (exact : Bool) (pre post : List (Except EvalErr Numeric)) (k : ErrKind)
+    (s e : Nat) :
+    render exact (pre ++ [.error (.err k s e)] ++ post) =
+      render exact pre ++ [.diagnostic k s e] ++ render exact post := by
+  simp [render]
+
+/-- **C19 (values are printed from the library result).** -/
+theorem C19_value_item (exact : Bool) (pre post : List (Except EvalErr Numeric)) (v : Numeric) :
+    render exact (pre ++ [.ok v] ++ post) =
+      render exact pre ++ [.line (renderValue exact v)] ++ render exact post := by
+  simp [render]
+
+/-- Non-vacuity: `3/2 m` in exact mode. -/
+example : String.ofList (renderValue true { value := 3 / 2, unit := [(.base .Meter, { power := 1, pfx := 0 })] })
+    = "3/2 m" := by decide +kernel
+
 end Anything.Props.C19
